@@ -452,16 +452,28 @@ def scope(ctx):
             s.setdefault('env', {})[e['_N'].id] = 'inner'
             return True
         return False
-    it = absint.Interp(ins, [('%s in _B' % NAME, has), ('%s not in _B' % NAME, lambda e, s, tr: (None if has(e, s, tr) is None else not has(e, s, tr)))],
+    def get_test(positive):
+        def f(e, s, tr):
+            h = has(e, s, tr)
+            if h is None:
+                return None
+            val = h and not s.get('none_valued', False)      # .get(name) of a declared variable that holds no value is None
+            return val if positive else not val
+        return f
+    it = absint.Interp(ins, [('%s in _B' % NAME, has), ('%s not in _B' % NAME, lambda e, s, tr: (None if has(e, s, tr) is None else not has(e, s, tr))),
+                             ('_B.get(%s) is not None' % NAME, get_test(True)), ('_B.get(%s) is None' % NAME, get_test(False)),
+                             ('_B.get(%s)' % NAME, get_test(True)), ('_B.get(%s, None) is not None' % NAME, get_test(True)),
+                             ('_B.get(%s, None) is None' % NAME, get_test(False)), ('_B.get(%s, None)' % NAME, get_test(True)),
+                             ('_B[%s] is not None' % NAME, get_test(True)), ('_B[%s]' % NAME, get_test(True))],
                        [('_B[%s] = %s' % (NAME, HANDLE), store), ('_N = _V', rebind_last)],
                        iters=[('self.scope_head', blocks)])
-    for where in ('outer', 'inner', None):
-        out, tr = it.run({'where': where})
+    for where, none_valued in (('outer', False), ('inner', False), (None, False), ('outer', True)):
+        out, tr = it.run({'where': where, 'none_valued': none_valued})
         stores = [t[1] for t in tr if t[0] == 'store']
         want = [where or 'inner']
         r.check(stores == want, 'install_symbol(variable %s) binds it in the %s block' % (
-            'declared in the %s block' % where if where else 'not declared yet', want[0]), ins,
-            construct='bridgepoint.interpret:SymbolTable.install_symbol', key='install %s' % where,
+            ('declared in the %s block' % where + (' and holding an empty value' if none_valued else '')) if where else 'not declared yet', want[0]), ins,
+            construct='bridgepoint.interpret:SymbolTable.install_symbol', key='install %s %s' % (where, none_valued),
             msg='install_symbol for a variable %s writes to %s; it must rebind an existing variable in its own block, else declare it in '
                 'the innermost block' % ('declared in the %s block' % where if where else 'not declared yet', stores))
 
